@@ -16,6 +16,13 @@ extern long fmc_thread_switches(int tid);
 
 #define STK 20000
 
+// errno is thread-local and a fiber can come back from a blocking call on another kernel thread;
+// __errno_location() is declared const, so a plain `errno` may use the previous thread's. Harness
+// fibers read and write errno only through these (see the errno finding in DESIGN.md, section 4)
+#include <errno.h>
+static __attribute__((noinline)) int rt_errno(void) { return errno; }
+static __attribute__((noinline)) void rt_set_errno(int v) { errno = v; }
+
 // start the runtime with N kernel threads; oracle mask from -Doracles (default: heap+stack only,
 // the C01/C02 checks add the run map / wake accounting)
 static inline int rt_start(void) {
